@@ -15,7 +15,8 @@ from vlib.coqlit import *
 ID = "C18"
 COQ_PROPS = "Props/C18.v"
 THEOREMS = ["C18_partition", "C18_classes", "C18_permutation", "C18_skip", "C18_skip_strict",
-            "C18_stack", "C18_stack_strict", "C18_parse_and_stack_isolation", "C18_key_is_member_value"]
+            "C18_stack", "C18_stack_strict", "C18_parse_and_stack_isolation", "C18_key_is_member_value",
+            "C18_stack_real", "C18_parse_and_stack_isolation_real"]
 ALLOWED_AXIOMS = []
 TRUSTED_BASE = [
     "reading a path (pydicom.dcmread) and the meta data extractor are INPUTS of the model: one read result per path "
